@@ -8,6 +8,7 @@ import (
 	"fmt"
 	"io"
 	"net/url"
+	"runtime"
 	"sort"
 	"strings"
 	"testing"
@@ -23,21 +24,22 @@ import (
 // Plan: explicit, symbolic, JSON-serialisable. The executor is a pure function of (plan, code under test).
 
 type Step struct {
-	Op string            `json:"op"`
-	C  int               `json:"c,omitempty"` // acting client index (-1: the credential's owner)
-	G  int               `json:"g,omitempty"` // credential selector
-	V  string            `json:"v,omitempty"` // variant
-	A  string            `json:"a,omitempty"` // client-auth variant ("" = ok)
-	P  map[string]string `json:"p,omitempty"` // literals
-	D  int64             `json:"d,omitempty"` // milliseconds (advance) / generic integer
-	F  *FaultSpec        `json:"f,omitempty"`
-	S  []int             `json:"s,omitempty"` // schedule picks (concurrent steps)
-	Sub []Step           `json:"sub,omitempty"` // concurrent sub-operations
+	Op  string            `json:"op"`
+	C   int               `json:"c,omitempty"` // acting client index (-1: the credential's owner)
+	G   int               `json:"g,omitempty"` // credential selector
+	V   string            `json:"v,omitempty"` // variant
+	A   string            `json:"a,omitempty"` // client-auth variant ("" = ok)
+	P   map[string]string `json:"p,omitempty"` // literals
+	D   int64             `json:"d,omitempty"` // milliseconds (advance) / generic integer
+	F   *FaultSpec        `json:"f,omitempty"`
+	F2  *FaultSpec        `json:"f2,omitempty"`  // second fault of a pair (armed together; fires independently)
+	S   []int             `json:"s,omitempty"`   // schedule picks (concurrent steps)
+	Sub []Step            `json:"sub,omitempty"` // concurrent sub-operations
 }
 
 type FaultSpec struct {
-	Kind string `json:"kind"`          // store-err | store-notfound | store-inactive | store-serial | lost-ack | crash-before | crash-after | begin-fail | commit-fail | rollback-fail | rand-err | rand-short | resp-lost | net-*
-	At   int    `json:"at"`            // storage call index within the request (or entropy draw index offset)
+	Kind string `json:"kind"`           // store-err | store-notfound | store-inactive | store-serial | lost-ack | crash-before | crash-after | begin-fail | commit-fail | rollback-fail | rand-err | rand-short | resp-lost | net-*
+	At   int    `json:"at"`             // storage call index within the request (or entropy draw index offset)
 	Call string `json:"call,omitempty"` // optional: only if the call name matches (robust under minimisation)
 }
 
@@ -66,27 +68,28 @@ type Run struct {
 	L    *Ledger
 	Ent  *EntropyStream
 
-	Viol   []Violation
-	Sanity []string // workload could not make progress where every known reason for refusal is absent
-	Log    []string
-	Idx    int // current step index
-	Stats  map[string]int
-	Probes map[string]int // rare-branch probes
-	Tags   []string       // properties whose "leaves everything else untouched" clause covers the current step
-	Start  time.Time
-	Secrets map[string]string // cleartext secret -> label (C20 storage monitor)
-	Canaries map[string]bool
-	storageSeen map[string]string // every value handed to storage so far -> where (retrospective secret check)
-	verifierN int
-	assertN   int
-	lastAuthz *authzInfo
-	parState  string
-	sigSeen   map[string]int
-	Fault   *faultState
-	StateSeen map[string]bool
-	Shape   []string // abstract history shape
-	NoProbe bool
-	T       *testing.T
+	Viol         []Violation
+	Sanity       []string // workload could not make progress where every known reason for refusal is absent
+	Log          []string
+	Idx          int // current step index
+	Stats        map[string]int
+	Probes       map[string]int // rare-branch probes
+	Tags         []string       // properties whose "leaves everything else untouched" clause covers the current step
+	Start        time.Time
+	Secrets      map[string]string // cleartext secret -> label (C20 storage monitor)
+	Canaries     map[string]bool
+	storageSeen  map[string]string // every value handed to storage so far -> where (retrospective secret check)
+	verifierN    int
+	assertN      int
+	lastAuthz    *authzInfo
+	parState     string
+	sigSeen      map[string]int
+	tablesBefore string
+	Fault        *faultState
+	StateSeen    map[string]bool
+	Shape        []string // abstract history shape
+	NoProbe      bool
+	T            *testing.T
 }
 
 func (r *Run) now() time.Time { return time.Now() }
@@ -158,20 +161,21 @@ func (r *Run) secret(val, label string) {
 // ---------------------------------------------------------------------------
 
 type Result struct {
-	Plan       *Plan
-	Violations []Violation
-	Sanity     []string
-	Log        []string
-	LogHash    string
-	Stats      map[string]int
-	Probes     map[string]int
-	SimTime    time.Duration
-	Steps      int
-	States     []string
-	Shape      string
-	Panic      string
+	Plan         *Plan
+	Violations   []Violation
+	Sanity       []string
+	Log          []string
+	LogHash      string
+	Stats        map[string]int
+	Probes       map[string]int
+	SimTime      time.Duration
+	Steps        int
+	States       []string
+	Shape        string
+	Panic        string
+	PanicStack   string
 	EntropyDraws int
-	StoreCalls int
+	StoreCalls   int
 }
 
 func hashLog(log []string) string {
@@ -234,7 +238,8 @@ func Execute(t *testing.T, plan *Plan) *Result {
 						res.Panic = "crash sentinel escaped the request guard"
 					} else {
 						res.Panic = fmt.Sprintf("panic at step %d: %v", r.Idx, p)
-						r.violate("C19", "panic", "", "panic during sequential history: %v", p)
+						res.PanicStack = panicSite()
+						r.violate("C19", "panic", res.PanicStack, "panic during a sequential history: %v at %s", p, res.PanicStack)
 					}
 				}
 				res.Violations = r.Viol
@@ -286,7 +291,14 @@ func cloneKnobs(k *Knobs) *Knobs {
 func (r *Run) step(st Step) {
 	r.stat("op:" + st.Op)
 	if st.F != nil {
-		r.Fault.arm(st.F)
+		r.Shape = append(r.Shape, fmt.Sprintf("fault:%s@%d", st.F.Kind, st.F.At))
+		if st.F2 != nil {
+			r.Shape = append(r.Shape, fmt.Sprintf("fault2:%s@%d", st.F2.Kind, st.F2.At))
+		}
+		r.Fault.arm(st.F, st.F2)
+		if r.W.Store.Copy {
+			r.tablesBefore = r.W.Store.DumpTables()
+		}
 	}
 	switch st.Op {
 	case "advance":
@@ -654,4 +666,29 @@ func sign(x int64) string {
 		return "before"
 	}
 	return "after"
+}
+
+// panicSite: innermost frames of the panicking goroutine that belong to fosite or the harness (file:line free, function names only).
+func panicSite() string {
+	pc := make([]uintptr, 40)
+	n := runtime.Callers(3, pc)
+	frames := runtime.CallersFrames(pc[:n])
+	var out []string
+	for {
+		f, more := frames.Next()
+		if strings.Contains(f.Function, "ory/fosite") || strings.Contains(f.Function, "verif/sim") {
+			fn := f.Function
+			if i := strings.LastIndex(fn, "/"); i >= 0 {
+				fn = fn[i+1:]
+			}
+			out = append(out, fn)
+			if len(out) >= 4 {
+				break
+			}
+		}
+		if !more {
+			break
+		}
+	}
+	return strings.Join(out, " < ")
 }
